@@ -43,10 +43,9 @@ def sorted_symbolic(engine, it, seq, kwargs):
     not less than the later).  `__lt__` of the elements is taken from the real source.
     """
     ctx = it.ctx
-    if kwargs.get("key") is not None:
-        raise Unsupported("sorted(key=) on symbolic sequence")
+    keyfn = kwargs.get("key")
     rev = it.decide(kwargs.get("reverse", False))
-    memo_key = (id(seq), rev)
+    memo_key = (id(seq), rev, id(getattr(keyfn, "node", keyfn)) if keyfn is not None else None)
     cache = ctx.__dict__.setdefault("sorted_cache", {})
     if memo_key in cache:
         return cache[memo_key][1]
@@ -72,6 +71,10 @@ def sorted_symbolic(engine, it, seq, kwargs):
     try:
         def thunk():
             ea, eb = out.get(a), out.get(b)
+            if keyfn is not None:
+                # ordered by the key only (python's sort is stable: ties keep the input order, which for a set
+                # is arbitrary - the model leaves the order of ties open)
+                ea, eb = it.call(keyfn, [ea], {}), it.call(keyfn, [eb], {})
             lt = it.compare("Lt", ea, eb) if rev else it.compare("Lt", eb, ea)
             return it.truth(lt)
         lt = it.try_nofork(rng2, thunk)
